@@ -51,7 +51,7 @@ var byronAttrChoices = [][]byte{
 var perturbKinds = []string{"drop-vkey", "drop-vkey", "drop-boot", "extra-vkey", "extra-boot", "wrong-key", "wrong-key",
 	"corrupt-sig", "corrupt-sig", "corrupt-boot-sig", "other-txid", "sig-over-reencoded-body", "sig-over-body-bytes", "dup-vkey",
 	"pk-sig-swap", "short-pk", "short-sig", "long-sig", "boot-wrong-cc", "boot-wrong-attrs", "boot-cc-31", "boot-as-vkey",
-	"boot-short-pk", "boot-short-sig", "drop-all"}
+	"boot-short-pk", "boot-short-sig", "drop-all", "dup-wits-key"}
 
 func sign(k *keyT, msg []byte) []byte { return ed25519.Sign(k.priv, msg) }
 
@@ -229,6 +229,7 @@ func genWith(r *vh.Rng, e *eraT, o genOpts) txCase {
 		}
 	}
 	cp := func(b []byte) []byte { return append([]byte{}, b...) }
+	dupKey := false
 	for _, pt := range perts {
 		applied := true
 		switch pt {
@@ -385,6 +386,10 @@ func genWith(r *vh.Rng, e *eraT, o genOpts) txCase {
 			}
 			i := r.Intn(len(bws))
 			bws[i].Sig = cp(bws[i].Sig[:63])
+		case "dup-wits-key":
+			// handled when the witness set is built: key 0 occurs twice, the
+			// first occurrence holds a witness with a corrupted signature
+			dupKey = true
 		case "boot-as-vkey":
 			if len(bws) == 0 {
 				applied = false
@@ -408,6 +413,13 @@ func genWith(r *vh.Rng, e *eraT, o genOpts) txCase {
 		}
 	}
 	wits := witnessSet(p.setTag, vks, bws)
+	if dupKey {
+		k := newKey(r)
+		bad := sign(k, txid)
+		bad[5] ^= 4
+		wits.Xs = append([]*vh.Item{vh.U(0), setOf(p.setTag, []*vh.Item{vh.A(vh.B(k.pub), vh.B(bad))})}, wits.Xs...)
+		wits.F = vh.MinForm(uint64(len(wits.Xs) / 2))
+	}
 	if reform && r.Bool() {
 		wits = vh.Reform(r, wits, vh.ReformOpts{Ints: true, Strings: true, Containers: true, Indef: true, Prob: 25})
 	}
@@ -446,6 +458,7 @@ func corpus(r *vh.Rng) []txCase {
 		{"signature over another tx id", genOpts{kinds: []string{"key"}, perturb: []string{"other-txid"}}, false},
 		{"signature over re-encoded body", genOpts{kinds: []string{"key"}, perturb: []string{"sig-over-reencoded-body"}, reform: 1}, false},
 		{"non-canonical body, valid", genOpts{kinds: []string{"key", "byron"}, perturb: []string{}, reform: 1}, false},
+		{"witness-set key 0 twice, first holds a bad witness", genOpts{kinds: []string{"key"}, perturb: []string{"dup-wits-key"}}, false},
 		{"duplicate witness", genOpts{kinds: []string{"key"}, perturb: []string{"dup-vkey"}}, false},
 		{"withdrawal key unwitnessed", genOpts{kinds: []string{"script"}, nWdrl: 1, perturb: []string{"drop-vkey"}}, false},
 		{"collateral owner missing", genOpts{kinds: []string{"script"}, collKind: []string{"key"}, perturb: []string{"wrong-key"}}, true},
